@@ -548,7 +548,7 @@ func c32Apply(st *c32State, op c32Op) string {
 				cause = rp.spec.dev.kind + "-response"
 			}
 		}
-		return "sig=Process:panic:" + verifmc.PanicSite(msg) + ":" + cause + "|" + msg
+		return "sig=Process:panic:" + c32PanicSite(msg) + ":" + cause + "|" + msg
 	}
 	// parked fragments must not contain blocks of a response that had to be rejected
 	for _, frag := range st.f.unreadyBlocks.disjointFragments {
@@ -590,6 +590,28 @@ func c32Apply(st *c32State, op c32Op) string {
 	}
 	st.pending = append(st.pending, cls)
 	return ""
+}
+
+// c32PanicSite: the first gossamer (non-harness) function below the panic, e.g. "sync.sortFragmentsOfChain.func1".
+func c32PanicSite(msg string) string {
+	lines := strings.Split(msg, "\n")
+	seenPanic := false
+	for _, l := range lines {
+		if strings.HasPrefix(l, "panic(") {
+			seenPanic = true
+			continue
+		}
+		if !seenPanic || strings.HasPrefix(l, "\t") || !strings.Contains(l, "github.com/ChainSafe/gossamer/") ||
+			strings.Contains(l, "verifmc") || strings.Contains(l, ".c32") {
+			continue
+		}
+		fn := l[strings.LastIndex(l, "/")+1:]
+		if k := strings.LastIndex(fn, "("); k > 0 {
+			fn = fn[:k]
+		}
+		return fn
+	}
+	return "unknown"
 }
 
 func c32Canonical(st *c32State) []byte {
